@@ -14,7 +14,7 @@ inductive ScanRes where
 
 /-- the OP_SUCCESSx pre-scan of `ExecuteWitnessScript` -/
 def opSuccessScan : Nat → Bytes → ScanRes
-  | 0, _ => .clean
+  | 0, scr => if scr.isEmpty then .clean else .decodeError   -- out of fuel: not reachable (fuel = len(script))
   | f+1, scr =>
     if scr.isEmpty then .clean else
     match getOpcode scr with
